@@ -191,6 +191,30 @@ def body_structure(case, ctx):
         ctx.close(np.asarray(sg2.weights), ref, GEO_C * EPS * np.abs(ref), "shell-grid-weights-no-rsq", f"get_shell_grid({i}, r_sq=False).weights vs w_i * angular weights")
         ctx.close(np.asarray(sg2.points), P[sl] - c, GEO_C * EPS * (r[i] + cn), "shell-grid-points", f"get_shell_grid({i}, r_sq=False).points")
 
+    # -- a shell addressed from the end: either a clean rejection or exactly that shell ---------------------------
+    try:
+        sg_neg = ag.get_shell_grid(-1)
+    except (ValueError, IndexError, TypeError):
+        sg_neg = None
+    if sg_neg is not None:
+        sl = slice(int(ind[n - 1]), int(ind[n]))
+        if np.asarray(sg_neg.points).shape == P[sl].shape:
+            ctx.close(np.asarray(sg_neg.points), P[sl] - c, GEO_C * EPS * (r[n - 1] + cn), "shell-grid-points", f"get_shell_grid(-1).points vs the last shell (rotate={rot})")
+            ctx.close(np.asarray(sg_neg.weights), W[sl], GEO_C * EPS * np.abs(W[sl]), "shell-grid-weights", "get_shell_grid(-1).weights vs the last shell")
+        else:
+            ctx.fail("shell-grid-size", f"get_shell_grid(-1): {np.asarray(sg_neg.points).shape} vs last shell {P[sl].shape}")
+
+    # -- spherical coordinates of the grid's own points about the grid centre and, afterwards, about another centre:
+    # the radius column is |p - centre| for the centre that was ASKED for
+    sph_own = np.asarray(ag.convert_cartesian_to_spherical(), dtype=float)
+    other_c = c + np.array([0.4, -0.3, 0.2])
+    sph_oth = np.asarray(ag.convert_cartesian_to_spherical(center=other_c.copy()), dtype=float)
+    if sph_own.shape == (len(P), 3) and sph_oth.shape == (len(P), 3):
+        ctx.close(sph_own[:, 0], np.linalg.norm(P - c, axis=1), GEO_C * EPS * (np.max(r) + cn + 1.0), "spherical-coordinates-radius", "convert_cartesian_to_spherical(): radius about the grid centre")
+        ctx.close(sph_oth[:, 0], np.linalg.norm(P - other_c, axis=1), GEO_C * EPS * (np.max(r) + cn + 2.0), "spherical-coordinates-radius", f"convert_cartesian_to_spherical(center={other_c.tolist()}) after a call with the default centre")
+    else:
+        ctx.fail("spherical-coordinates-shape", f"{sph_own.shape} / {sph_oth.shape} for {len(P)} points")
+
     # -- factorisation of integrals of g(r) Y_lm ---------------------------------------------------
     dmin = int(min(degs))
     d = P - c
